@@ -56,6 +56,25 @@ def run_variant(v):
         ev = os.path.join(tmp, 'evidence')
         os.makedirs(tree)
         make_tree(tree)
+        if v.get('patch'):
+            # a seeded change kept as a patch (seeded/<id>/patch.diff)
+            ptxt = open(os.path.join(VERIF, v['patch'])).read()
+            for line in ptxt.split('\n'):
+                if line.startswith('+++ b/'):
+                    f = os.path.join(tree, line[6:].strip())
+                    if os.path.exists(f):          # break the hard link before patching
+                        data = open(f, 'rb').read()
+                        os.remove(f)
+                        open(f, 'wb').write(data)
+            pr = subprocess.run(['patch', '-p1', '-s', '--no-backup-if-mismatch', '-d', tree], input=ptxt, text=True, capture_output=True)
+            if pr.returncode != 0:
+                return dict(v, result='INVALID', detail='patch does not apply: ' + (pr.stdout + pr.stderr)[:150])
+            env = dict(os.environ, VERIF_REPO=tree, VERIF_EVIDENCE_DIR=ev)
+            p = subprocess.run([os.path.join(VERIF, 'check'), v['property']], capture_output=True, text=True, env=env, cwd=VERIF, timeout=900)
+            out = p.stdout + p.stderr
+            ok = p.returncode == 1 and 'VIOLATION property=' + v['property'] in out
+            first = next((l for l in out.split('\n') if ' rule ' in l), '')[:260]
+            return dict(v, result='OK' if ok else 'FAIL', rc=p.returncode, report=first)
         path = os.path.join(tree, v['file'])
         src = open(path, encoding='utf-8', errors='replace').read()
         n = src.count(v['find'])
@@ -83,6 +102,22 @@ def run_variant(v):
         shutil.rmtree(tmp, ignore_errors=True)
 
 
+def seeded_variants():
+    """changes written by independent sub-agents (seeded/<id>/): each must be reported by the check named in its meta"""
+    out = []
+    sd = os.path.join(VERIF, 'seeded')
+    if not os.path.isdir(sd):
+        return out
+    for d in sorted(os.listdir(sd)):
+        mp = os.path.join(sd, d, 'meta.json')
+        if os.path.exists(mp) and os.path.exists(os.path.join(sd, d, 'patch.diff')):
+            meta = json.load(open(mp))
+            for prop in meta.get('caught_by', [meta.get('property')]):
+                out.append({'id': 'SEED-%s-%s' % (d, prop), 'property': prop, 'patch': 'seeded/%s/patch.diff' % d, 'expect': 'fire',
+                            'note': meta.get('what_it_needs_to_manifest', '')[:200]})
+    return out
+
+
 def main(argv):
     jobs = 16
     only = None
@@ -97,7 +132,7 @@ def main(argv):
             jout = argv[i + 1]; i += 2
         else:
             i += 1
-    variants = json.load(open(os.path.join(HERE, 'variants.json')))
+    variants = json.load(open(os.path.join(HERE, 'variants.json'))) + seeded_variants()
     if only:
         variants = [v for v in variants if v['id'].startswith(only)]
     with ThreadPoolExecutor(max_workers=jobs) as ex:
